@@ -186,6 +186,35 @@ func (c *aeCtx) valueDomain(v ssa.Value, depth int) *fieldDomain {
 		if x.Value != nil && x.Value.Kind() == constant.String {
 			return &fieldDomain{closed: true, allowed: []string{constant.StringVal(x.Value)}}
 		}
+	case *ssa.Parameter:
+		// a parameter of a repo helper: the join over every call site (all of them must be resolved)
+		fn := x.Parent()
+		idx := -1
+		for i, q := range fn.Params {
+			if q == x {
+				idx = i
+			}
+		}
+		n := c.p.CG.Nodes[fn]
+		if idx < 0 || n == nil || len(n.In) == 0 || !c.p.IsRepoFn(fn) {
+			return nil
+		}
+		var d *fieldDomain
+		for i, ce := range n.In {
+			if ce.Site == nil || idx >= len(ce.Site.Common().Args) || ce.Site.Common().IsInvoke() {
+				return nil
+			}
+			de := c.valueDomain(ce.Site.Common().Args[idx], depth+1)
+			if de == nil {
+				return nil
+			}
+			if i == 0 {
+				d = de
+			} else {
+				d = joinDomain(d, de)
+			}
+		}
+		return d
 	case *ssa.Phi:
 		var d *fieldDomain
 		for i, e := range x.Edges {
